@@ -10,8 +10,9 @@ IMPORTS = "From Aelys Require Import Model.GlobalsSync.\nOpen Scope Z_scope."
 TRUSTED = [
     "Coq 8.16.1 kernel + vm_compute (witnesses, Examples, evaluation of the model on the tie's sessions)",
     "tools/extractors/c14.py: source-shape flags (run_with_vm_and_opt clears frames first; update_global_mutability after "
-    "compile; execute()? before sync_globals_to_hashmap; host call entry points do not clear frames / do not sync; Return syncs "
-    "only towards a caller frame) from repl.rs, call_api/{kinds,cached}.rs, calls.inc",
+    "compile; execute()? before sync_globals_to_hashmap; host call entry points prepare + push + run_fast; cached callables set the "
+    "frame's mapping id; Return syncs towards a caller frame and when leaving the run loop; run_fast truncates the frame stack on "
+    "error) from repl.rs, call_api/{kinds,cached}.rs, calls.inc, run.rs",
     "Model/GlobalsSync.v is a hand model of execute / set_global_by_index / sync_globals_to_hashmap / "
     "sync_current_function_globals / prepare_globals_for_function / the call and Return protocol / host call entry; values "
     "are integers (strings and functions are coded), instruction semantics other than global access are not modelled; tied by "
@@ -42,9 +43,7 @@ def run(ctx):
         "real code violates the property",
         "entry conditions ops_ok (a layout id names one layout; syncs are performed for the layout of the running frame)",
     ]
-    ctx.cov["refuted_lemmas"] = ["host_call_returns_callee_value without the entry condition frames = []: refuted by "
-                                 "host_call_after_failure_refuted; host-call writes of globals reach later inputs: refuted by "
-                                 "host_call_write_lost_witness"]
+    ctx.cov["refuted_lemmas"] = []
     proved = ctx.prove("C14", extracted=["ReplShape"])
     if ctx.tier == "thorough" and proved:
         ctx.coqchk("C14")
@@ -97,59 +96,32 @@ def run(ctx):
             ctx.broken.append("correspondence C14: model evaluation failed")
             ctx.log(err[-3000:])
         failset = set(fails)
-        diverging = [i for i, c in enumerate(cases) if c["real"] != c["oracle"]]
-        need = sorted(failset | set(diverging))
-        model = {}
-        if need:
-            mo, _ = vlib.coq_eval_terms("c14", IMPORTS, [f"session_obs ({cases[i]['query']})" for i in need])
-            for i, m in zip(need, mo):
-                model[i] = parse_lists(m.split(":")[0]) if m else None
+        # No failure class is excused any more (KF-C14-1..4 are repaired): a step that differs from the session's
+        # reference semantics is a violation with the session as the failing input; so is a host call that finds
+        # frames of an earlier run on the stack, and a session on which the model mispredicts an observation
         nrep = 0
-        for i in need:
-            c = cases[i]
-            rep = {"case_seed": c["seed"], "profile": prof, "source": c["source"], "real_steps": c["real"], "oracle_steps": c["oracle"],
-                   "observed": c["observed"], "model_query": c["query"]}
-            m = model.get(i)
-            obs = parse_lists(c["observed"])
+        for i, c in enumerate(cases):
             k = next((j for j in range(len(c["real"])) if j >= len(c["oracle"]) or c["real"][j] != c["oracle"][j]), None)
-            if c["stale"] and k is not None and k == len(c["real"]) - 1 and (m is not None and len(m) == len(obs)) and \
-                    all((split_flags(m[j])[0], split_flags(m[j])[2]) == (obs[j][0], obs[j][obs[j].index(-7) + 1:]) for j in range(len(obs))):
-                # the last step was a host call entered on a non-empty frame stack (not given to the model); everything
-                # before it is predicted by the model
-                sig = "c14:host-call-on-stale-frames"
-                rep["model"] = m
-                ctx.violation(sig, f"step {k}: a host call entered while frames of an earlier failure are still on the stack does not return "
-                              f"what the callee returns (real {c['real'][k]!r}, expected {c['oracle'][k]!r})", rep)
+            if k is None and i not in failset and not c["stale"]:
+                continue
+            nrep += 1
+            if nrep > 6:
+                continue
+            rep = {"case_seed": c["seed"], "profile": prof, "source": c["source"], "real_steps": c["real"], "oracle_steps": c["oracle"],
+                   "observed": c["observed"], "model_query": c["query"], "first_step_differing_from_oracle": k}
+            if i in failset:
+                mo, _ = vlib.coq_eval_terms("c14", IMPORTS, [f"session_obs_noflags ({c['query']})"])
+                rep["model"] = mo[0]
+            if k is not None:
+                sig = "c14:session-divergence"
+                ctx.violation(sig, f"step {k} of the session does not do what the session's reference semantics say "
+                              f"(real {c['real'][k] if k < len(c['real']) else None!r}, expected {c['oracle'][k] if k < len(c['oracle']) else None!r})", rep)
                 by_sig[sig] = by_sig.get(sig, 0) + 1
-                continue
-            if m is None or len(m) != len(obs):
-                ctx.violation("c14:model-eval-failed", "no model prediction for this session", rep)
-                continue
-            msteps = [split_flags(x) for x in m]
-            ostep = [(x[0], x[x.index(-7) + 1:]) for x in obs]
-            mk = next((j for j in range(len(obs)) if (msteps[j][0], msteps[j][2]) != ostep[j]), None)   # first step the model mispredicts
-            stale = next((j for j in range(len(msteps)) if 1 in msteps[j][1]), None)                      # host call on a non-empty frame stack
-            rep["first_step_differing_from_oracle"] = k
-            rep["first_step_differing_from_model"] = mk
-            rep["model"] = m
-            if k is None:
-                # the session follows the property; the model must predict it exactly
-                nrep += 1
-                if nrep <= 3:
-                    ctx.violation("c14:model-mismatch", "the implementation follows the property on this session but the model "
-                                  "predicts other observations: Model/GlobalsSync.v no longer describes the code", rep)
-                continue
-            steps_src = re.split(r"\];\s*\[", c["query"].strip()[2:-2])
-            if (mk is None or mk > k) and not c["stale"]:
-                # the model explains every observation up to the diverging step: which modelled behaviour is it?
-                host_writes = [j for j in range(k + 1) if steps_src[j].lstrip().startswith("OHostCall")
-                               and ("OAddIdx" in steps_src[j] or "OSetIdx" in steps_src[j]) and 2 in msteps[j][1]]
-                sig = "c14:host-call-global-write-lost" if host_writes else "c14:divergence-explained-by-model-only"
+            elif c["stale"]:
+                ctx.violation("c14:frames-left-between-steps", "a host call found frames of an earlier run on the VM's frame stack", rep)
             else:
-                sig = "c14:unexplained-session-divergence"
-            ctx.violation(sig, f"step {k} of the session does not do what the session's reference semantics say "
-                          f"(real {c['real'][k] if k < len(c['real']) else None!r}, expected {c['oracle'][k] if k < len(c['oracle']) else None!r})", rep)
-            by_sig[sig] = by_sig.get(sig, 0) + 1
+                ctx.violation("c14:model-mismatch", "the implementation follows the property on this session but the model "
+                              "predicts other observations: Model/GlobalsSync.v no longer describes the code", rep)
         ctx.add_samples([{"source": c["source"][:500], "real_steps": c["real"][:6], "oracle_steps": c["oracle"][:6]} for c in cases[:2] + cases[7:8]])
     ctx.cov["evaluations"] = total
     ctx.cov["distinct_nontrivial"] = len(distinct)
